@@ -71,6 +71,11 @@ theorem step_ordered {s s' : State} {m : Spec} (a : Act) (h : Inv s m) (ho : Dee
           rw [hlv] at ho'
           simpa [addAt] using ho'
       · cases hstep
+  | flushAbort =>
+    simp only [step] at hstep
+    split at hstep
+    · cases hstep
+    · cases hstep; exact ho
   | compact rm lvl add =>
     simp only [step] at hstep
     split at hstep
@@ -162,6 +167,16 @@ theorem levelValid_of_ordered {l : List Tbl} (hs : ∀ t ∈ l, t.run.Sorted) (h
   intro a b hab
   unfold Rescale.Before
   simpa [Bytes.lt] using hab
+
+/-- the converse, for states that come with C06's `LevelValid` (restored / merged level lists) -/
+theorem ordered_of_levelValid {l : List Tbl} (h : Rescale.LevelValid l) : Ordered l := by
+  refine List.Pairwise.imp ?_ h.2
+  intro a b hab
+  unfold Rescale.Before at hab
+  simp [Bytes.lt, hab]
+
+theorem deepOrdered_of_levelValid {s : State} (h : ∀ l ∈ s.levels.tail, Rescale.LevelValid l) : DeepOrdered s :=
+  fun l hl => ordered_of_levelValid (h l hl)
 
 theorem deep_sorted {s : State} {m : Spec} (h : Inv s m) {l : List Tbl} (hl : l ∈ s.levels.tail) :
     ∀ t ∈ l, t.run.Sorted := by
